@@ -2,7 +2,7 @@
 //!
 //! `rule <proc> <st> <trig> <st'> <action>*` with triggers `L:m0` (local message of type m0),
 //! `M:m0` (network message), `T:t0` (timer) and actions `S:m1:<data>:p1` (send), `L:m1:<data>`
-//! (send_local), `T:t0:3` (set_timer, delay in half units), `O:t0:3` (set_timer_once), `C:t0`
+//! (send_local), `T:t0:3` (set_timer, delay in half units or `x<hex>` = raw f64 bits), `O:t0:3` (set_timer_once), `C:t0`
 //! (cancel_timer), `K:m1` (send_local carrying the clock reading), `R:m1` (send_local carrying
 //! ctx.rand() bits).  `<data>` is `=text` (literal) or `$` (echo the triggering payload).
 use std::cell::RefCell;
@@ -21,8 +21,8 @@ pub enum Data {
 pub enum Act {
     Send(String, Data, String),
     Local(String, Data),
-    Set(String, u64),
-    Once(String, u64),
+    Set(String, f64),
+    Once(String, f64),
     Cancel(String),
     Clock(String),
     Rand(String),
@@ -61,8 +61,8 @@ pub fn parse_act(tok: &str) -> Act {
             Act::Send(parts[1].to_string(), parse_data(parts[2]), parts[3].to_string())
         }
         "L" => Act::Local(parts[1].to_string(), parse_data(parts[2])),
-        "T" => Act::Set(parts[1].to_string(), parts[2].parse().unwrap()),
-        "O" => Act::Once(parts[1].to_string(), parts[2].parse().unwrap()),
+        "T" => Act::Set(parts[1].to_string(), tok_delay(parts[2])),
+        "O" => Act::Once(parts[1].to_string(), tok_delay(parts[2])),
         "C" => Act::Cancel(parts[1].to_string()),
         "K" => Act::Clock(parts[1].to_string()),
         "R" => Act::Rand(parts[1].to_string()),
@@ -95,6 +95,14 @@ pub fn rules_json(rule_lines: &[Vec<String>]) -> String {
 
 pub fn delay_of(units: u64) -> f64 {
     units as f64 * 0.5
+}
+
+/// a delay token: integer = half units, `x<hex>` = raw f64 bits
+pub fn tok_delay(tok: &str) -> f64 {
+    match tok.strip_prefix('x') {
+        Some(h) => f64::from_bits(u64::from_str_radix(h, 16).unwrap()),
+        None => delay_of(tok.parse().unwrap()),
+    }
 }
 
 pub fn units_of(delay: f64) -> String {
@@ -181,8 +189,8 @@ impl ScriptProc {
                 let rec = match act {
                     Act::Send(tip, _, dst) => Some(format!("S:{}:{}", tip, dst)),
                     Act::Local(tip, _) | Act::Clock(tip) | Act::Rand(tip) => Some(format!("L:{}", tip)),
-                    Act::Set(name, units) => Some(format!("T:{}:{}:0", name, units)),
-                    Act::Once(name, units) => Some(format!("T:{}:{}:1", name, units)),
+                    Act::Set(name, d) => Some(format!("T:{}:{}:0", name, units_of(*d))),
+                    Act::Once(name, d) => Some(format!("T:{}:{}:1", name, units_of(*d))),
                     Act::Cancel(name) => Some(format!("C:{}", name)),
                     Act::Fail => None,
                 };
@@ -196,8 +204,8 @@ impl ScriptProc {
                 match act {
                     Act::Send(tip, d, dst) => ctx.send(Message::new(tip.clone(), dat(d)), dst.clone()),
                     Act::Local(tip, d) => ctx.send_local(Message::new(tip.clone(), dat(d))),
-                    Act::Set(name, units) => ctx.set_timer(name, delay_of(*units)),
-                    Act::Once(name, units) => ctx.set_timer_once(name, delay_of(*units)),
+                    Act::Set(name, d) => ctx.set_timer(name, *d),
+                    Act::Once(name, d) => ctx.set_timer_once(name, *d),
                     Act::Cancel(name) => ctx.cancel_timer(name),
                     Act::Clock(tip) => {
                         let t = ctx.time();
